@@ -183,4 +183,65 @@ example : ∃ pk, (Toy.tx 1 2 10000 [⟨upokt, 10000⟩]).pk = some pk ∧
     allowed Toy.w (Toy.tx 1 2 10000 [⟨upokt, 10000⟩]).msg (Toy.S.addr pk) = false :=
   ⟨2, rfl, by simp [allowed, Toy.tx, Toy.msg, Toy.S]⟩
 
+/-! ### Message-level signer checks of the node handlers -/
+
+/-- **unstake_unjail_signer_rule.** For `MsgBeginUnstake` / `MsgUnjail` (`GetSigners() = [msg.Signer,
+node]`): if the key accepted by the ante handler belongs to one of the two declared signers and the
+handler's `ValidateValidatorMsgSigner(node, msg.Signer)` passes, then the key belongs to the node's
+operator or to its output address — although the message itself chooses `msg.Signer`. -/
+theorem unstake_unjail_signer_rule (operator msgSigner keyAddr : Addr) (output : Option Addr)
+    (hante : keyAddr = msgSigner ∨ keyAddr = operator)
+    (hhandler : validateValidatorMsgSigner operator output msgSigner = true) :
+    keyAddr = operator ∨ output = some keyAddr := by
+  rcases hante with rfl | rfl
+  · unfold validateValidatorMsgSigner at hhandler
+    cases output with
+    | none => left; simpa using hhandler
+    | some o =>
+      simp at hhandler
+      rcases hhandler with h | h
+      · exact Or.inl h
+      · exact Or.inr (by rw [h])
+  · exact Or.inl rfl
+
+example : validateValidatorMsgSigner [1] (some [2]) [2] = true := by decide
+example : validateValidatorMsgSigner [1] (some [2]) [3] = false := by decide
+
+/-- **stake_signer_rule.** If the signer checks of `ValidateValidatorStaking` pass for the address of
+the verifying key, then for an existing node the key belongs to the operator or to the *current*
+output address; for a new node to the operator or to the output address named in the message. -/
+theorem stake_signer_rule (ncust oedit : Bool) (operator signer : Addr) (cur : Option (Option Addr))
+    (newOut : Option Addr) (h : stakeSignerChecks ncust oedit operator cur newOut signer = true) :
+    signer = operator ∨
+      (match cur with
+       | some curOut => curOut = some signer
+       | none => newOut = some signer) := by
+  unfold stakeSignerChecks at h
+  cases cur with
+  | some curOut =>
+    simp only [Bool.and_eq_true] at h
+    have hc := h.2
+    unfold validateValidatorMsgSigner at hc
+    cases curOut with
+    | none => left; simpa using hc
+    | some o =>
+      simp at hc
+      rcases hc with hc | hc
+      · exact Or.inl hc
+      · right; simp [hc]
+  | none =>
+    simp only [Bool.and_eq_true, Bool.false_or] at h
+    have hn := h.1.1
+    unfold validateValidatorMsgSigner at hn
+    cases newOut with
+    | none => left; simpa using hn
+    | some o =>
+      simp at hn
+      rcases hn with hn | hn
+      · exact Or.inl hn
+      · right; simp [hn]
+
+example : stakeSignerChecks true true [1] (some (some [2])) (some [3]) [2] = true := by decide
+example : stakeSignerChecks true true [1] (some (some [2])) (some [3]) [3] = false := by decide
+
 end C14
